@@ -187,6 +187,9 @@ class C15(framework.PropertyCheck):
         for i in range(n):
             V = 'zz9' if i % 3 == 0 else rng.choice(_TS)
             r = random.Random(rng.randrange(1 << 30))
+            if i % 40 == 17:
+                yield {'kind': 'topmacro', 'V': V, 'start': 0, 'n': rng.randint(1, 9)}
+                continue
             if i % 9 == 8:
                 yield {'kind': 'usermacro', 'seed': rng.randrange(1 << 30), 'V': V, 'start': rng.randrange(6)}
                 continue
@@ -265,6 +268,11 @@ class C15(framework.PropertyCheck):
             ("(defmacro m9 [c p] `(if ,c ,p (m8 ,p)))", f'(m9 (< {V} 1) {pr("p", "x")})'),
             # an expansion may be a literal: the call then is that literal
             ("(defmacro m9 [] 5)", '(m9)', '5'),
+            # ... and afterwards the program continues where it was: definitions made next are global, variables named like a parameter are the user's
+            ("(defmacro m9 [x9] x9)", f'(do (m9 7) (define zz8 (m9 {V})) (list (m9 1) zz8 ((fn [] zz8))))', f'(list 1 {V} {V})'),
+            # one operand inserted at two different depths below its binding
+            ("(defmacro m9 [k xs] `(if (= ,k 0) '() (for/list [e9 ,xs] (* ,k e9))))", f'(list (m9 {V} \'(1 2)) ((fn [{V}] (let ([w9 1]) (m9 {V} (list {V} w9)))) 3))'),
+            ("(defmacro m9 [t xs] `(do (set [,t 0]) (for [e9 ,xs] (set [,t (+ ,t e9)])) ,t))", f'(let ([q9 9]) (list (m9 q9 \'(1 2 3)) q9 {V}))'),
             ("(defmacro m9 [p] (if (list? p) \"l\" #t))", f'(list (m9 (a b)) (m9 {V}))', '(list "l" #t)'),
             # operands that a constant folder could rewrite reach the macro as written, in the call and in macroexpand alike
             ("(defmacro m9 [p q] `(list ',p ,q ,q))", '(m9 (+ 1 2) (* 2 3))'),
@@ -274,7 +282,17 @@ class C15(framework.PropertyCheck):
         ])
         return m
 
+    def _topmacro(self, case):
+        """macros whose expansion is a literal or their operand, called as top-level forms: the program continues where it was"""
+        n = case['n']
+        forms = [("(defmacro lit9 [] 5)", None), ("(defmacro id9 [x9] x9)", None), ('(lit9)', ('I', 5)), (f'(define zt8 {n})', ('I', n)), ('(lit9)', ('I', 5)),
+                 ('zt8', ('I', n)), ('(define x9 10)', ('I', 10)), ('(id9 7)', ('I', 7)), ('x9', ('I', 10)),
+                 ('((fn [] (list zt8 x9 (id9 zt8))))', ('L', True, (('I', n), ('I', 10), ('I', n)))), ('(define zu8 (lit9))', ('I', 5)), ('(+ zu8 zt8)', ('I', 5 + n))]
+        return forms
+
     def steps(self, case):
+        if case['kind'] == 'topmacro':
+            return [('loadvcd', 't0', self._vcd())] + [('eval', 'eor', f) for f, _ in self._topmacro(case)]
         if case['kind'] == 'usermacro':
             d, use = self._usermacro(case)[:2]
             st = [('loadvcd', 't0', self._vcd())] + [('eval', 'eor', s) for s in SETUP]
@@ -285,6 +303,15 @@ class C15(framework.PropertyCheck):
         return self._steps(case, case['form'])
 
     def oracle(self, case, iobs):
+        if case['kind'] == 'topmacro':
+            for k, (f, want) in enumerate(self._topmacro(case)):
+                o = iobs[k + 1] if k + 1 < len(iobs) else None
+                if o is None or o[0] != 'ok':
+                    return {'what': 'a top-level form after the call of a macro with a literal expansion failed', 'form': f, 'got': o}
+                if want is not None and _nokind(o[1]) != _nokind(want):
+                    return {'what': 'after the call of a macro whose expansion is a literal the program does not continue in its own environment',
+                            'form': f, 'got': o[1], 'want': want, 'forms': [x for x, _ in self._topmacro(case)]}
+            return None
         if case['kind'] == 'usermacro':
             um = self._usermacro(case)
             d, use = um[:2]
